@@ -154,6 +154,9 @@ deriving Repr, Inhabited
 structure ScopeState where
   running : Nat := 0
   mainTask : Nat := 0
+  /-- `Scope::main_task_waiting`: the main task is blocked at the end of `scope` (F10 repaired: only then may
+  the last scoped thread unblock it) -/
+  mainWaiting : Bool := false
 deriving Repr, Inhabited
 
 structure Heap where
@@ -325,7 +328,11 @@ def tlsTryWith (k : Nat) (oi : Nat) : P String := do
 def scopeClose (sid : Nat) : P Unit := do
   let h ← K.getU
   let sc := (h.scopes[sid]?).getD {}
-  if sc.running != 0 then do K.block false; K.switch else pure ()
+  if sc.running != 0 then do
+    K.setU { h with scopes := h.scopes.modify sid (fun sc => { sc with mainWaiting := true }) }
+    K.block false
+    K.switch
+  else pure ()
 
 def isAsyncOp (n : String) : Bool := n == "fjoin" || n == "fyield" || n == "pend" || n == "acq_await"
 
@@ -836,7 +843,7 @@ def IR.scopedBody (ir : IR) (k sid : Nat) : P Unit :=
     let h ← K.getU
     let sc := (h.scopes[sid]?).getD {}
     K.setU { h with scopes := h.scopes.modify sid (fun sc => { sc with running := sc.running - 1 }) }
-    if sc.running == 1 then K.unblock sc.mainTask else pure ()) false
+    if sc.running == 1 && sc.mainWaiting then K.unblock sc.mainTask else pure ()) false
 
 /-- body indices `≥ tasks.length` denote scoped threads: `b + (sid + 1) * tasks.length` -/
 def IR.bodies (ir : IR) (n : Nat) : P Unit :=
